@@ -182,16 +182,18 @@ class ScreenScheduler():
 
         Next screen from the stack is then displayed.
         """
-        screen = self._screen_stack.pop()
+        screen = self._screen_stack.pop(False)
         log.debug("Closing screen %s from %s", screen, closed_from)
-
-        # User can react when screen is closing
-        screen.ui_screen.closed()
 
         if closed_from is not None and closed_from is not screen.ui_screen:
             raise RenderUnexpectedError("You are trying to close screen %s from screen %s! "
                                         "This is most probably not intentional." %
                                         (closed_from, screen.ui_screen))
+
+        self._screen_stack.pop()
+
+        # User can react when screen is closing
+        screen.ui_screen.closed()
 
         if screen.execute_new_loop:
             self._event_loop.close_loop()
